@@ -63,9 +63,15 @@ var concSources = []string{
 	`find all @/(a)(b)/ @/(c)\1/`,
 	`find all in 'a', 'ab', 'abc' in 'd', 'cd', 'bcd'`,
 	`find all in 'ab', 'a', 'b', 'abb' in 'c', 'bc', 'b'`,
+	// hex escapes (read by the lexer before the parser is entered), and caseless
+	// literals with and over multi-byte characters
+	`find all "a\x62" or '\x41\x42' or "\x31\x32"`,
+	`find all '\x63' '\x64' or "\x7a\x7A" or '\x20'`,
+	`find all caseless 'résumé' or caseless 'É'`,
+	`find all caseless 'AB' (any = v) maybe caseless 'é'`,
 }
 
-var concTexts = []string{"abba abab c abcd abbc", "aabbc ac bcb abcc", "a1b22 xyzzyx qq", "", "ababababababababababab aaaaaaaaaaaaaaaaaaaaaaaaaaaaaa 01234567890123456789"}
+var concTexts = []string{"abba abab c abcd abbc", "aabbc ac bcb abcc", "a1b22 xyzzyx qq", "", "ababababababababababab aaaaaaaaaaaaaaaaaaaaaaaaaaaaaa 01234567890123456789", "Résumé résumé RÉSUMÉ É é abAB cd12 zZ"}
 
 type concResult struct {
 	err  string
